@@ -18,6 +18,18 @@ HERE = os.path.dirname(os.path.dirname(os.path.abspath(__file__)))
 CONTRACT_MODULES = ['contracts.c_graph', 'contracts.c_sanitize', 'contracts.c_job', 'contracts.env_asyncio', 'contracts.c_window', 'contracts.c_run', 'contracts.c_corun', 'contracts.c_scheduler', 'contracts.c_build', 'contracts.c_surgery', 'contracts.c_ids', 'contracts.c_init']
 
 
+_SHAPES = None
+
+
+def _loop_shapes():
+    global _SHAPES
+    if _SHAPES is None:
+        import json
+        p = os.path.join(HERE, 'contracts', 'LOOP_SHAPES.json')
+        _SHAPES = json.load(open(p)) if os.path.exists(p) else {}
+    return _SHAPES
+
+
 def load_contracts():
     if HERE not in sys.path:
         sys.path.insert(0, HERE)
@@ -62,6 +74,13 @@ def generate(qualnames, repo=None):
                                                      qn, label, 'syntactic', c.label_props.get(label, c.props),
                                                      [why] if not ok else [], info.lineno))
                 continue
+            recorded = _loop_shapes().get(qn)
+            if recorded is not None:
+                from .extract import loop_headers
+                found = loop_headers(info.node)
+                if found != recorded:
+                    raise Unsupported('shape: the loops of %s are not the ones its contract was written for '
+                                      '(recorded %s, found %s)' % (qn, recorded, found))
             ex = Exec(info, c, reg, repo)
             fr.obligations = ex.run()
             fr.covers = ex.covers
